@@ -978,6 +978,15 @@ func heldBy(dump map[string]world.DumpEntry, key string) []string {
 	return out
 }
 
+func intersects(a, b []string) bool {
+	for _, x := range a {
+		if contains(b, x) {
+			return true
+		}
+	}
+	return false
+}
+
 func contains(l []string, x string) bool {
 	for _, y := range l {
 		if y == x {
@@ -996,6 +1005,11 @@ func (s *Sim) checkFilter(p *corev1.Pod, err error) {
 	held := heldBy(dump, key)
 	clean := s.faultMode == world.None
 	r.heldAfterFilter = append([]string(nil), held...)
+	// whatever the fault mode: a filter that reported success and offered nodes while the app's reserve stayed untouched
+	r.reserveNotHandedOver = nil
+	if wl.Kind == KDp && wl.effPolicy() != 0 && len(r.heldAtFilter) == 0 && len(r.reservedAtFilter) > 0 && err == nil && r.FilterOK && len(held) == 0 {
+		r.reserveNotHandedOver = append([]string(nil), r.reservedAtFilter...)
+	}
 	// C08: a filter that offers nothing must not leave new IPs behind for a multi-range pod
 	if wl.Ranges != "" && !r.FilterOK && !equalStr(held, r.heldAtFilter) {
 		s.alarm("C08", "filter-empty-left-ips", fmt.Sprintf("pod %s requested ranges %s; filter offered no node but key holds %v (before: %v)", p.Name, wl.Ranges, held, r.heldAtFilter))
@@ -1153,6 +1167,11 @@ func (s *Sim) checkBind(p *corev1.Pod, node string, err error, pre map[string]wo
 				if byAdmin {
 					// the administrator released / de-configured the IP filter had handed over: outside C02's quantifier
 					s.Counts["c02_dp_bind_fresh_ip_after_administrator_took_the_filter_allocation"]++
+				} else if len(r.heldAfterFilter) == 0 && intersects(r.reserveNotHandedOver, reserve) {
+					// the reserve was there when the pod was filtered, the filter call (in which one API call failed) reported
+					// success and offered nodes without handing it over, and the scheduler bound the pod
+					s.alarm("C02", clause+":filter-swallowed-failed-hand-over", fmt.Sprintf("pod %s of %s: its last filter offered %v with no error although the hand-over of the reserve %v failed (injected API fault); bind gave it fresh IP %s while %v are still held in reserve under %q",
+						p.Name, wl.Name, r.Offered, r.reserveNotHandedOver, b.IPs[0], reserve, s.prefixKey(wl)))
 				} else if len(r.heldAfterFilter) == 0 {
 					// the reserve appeared after the pod's filter (another pod of the app vanished meanwhile): the
 					// property puts the hand-over into scheduling (filter), bind does not look at the reserve - counted only
